@@ -504,7 +504,7 @@ CHECKS["C18"] = dict(
 
 CHECKS["C15"] = dict(
     harness="C15_threads", sources=["props/C15_threads.cc", "shim/shim_stub.c", "pki/pki.cc"], variant="tsan",
-    trust_unconfirmed=r"ThreadSanitizer",
+    trust_unconfirmed=r"ThreadSanitizer|socket ids are not unique",
     level="exploration", engine="ThreadSanitizer build of library + harness; rapidcheck-generated multi-thread workloads",
     technique="concurrency fuzzing with a happens-before race detector as oracle: generated per-thread workloads on "
               "distinct sockets (plus synchronised hand-over), ThreadSanitizer reports, per-thread data "
